@@ -227,6 +227,15 @@ class NumpyCodegenMapper(CachedMapper[str, Never, []]):
                                            attr=cast("str", e_np.dtype.name)),
                         args=[_constant(value="nan")],
                         keywords=[])
+                elif isinstance(e, np.generic):
+                    # Keep the scalar's type: a bare literal would be weakly
+                    # typed (numpy.float64 subclasses float and unparses as a
+                    # plain float literal).
+                    return ast.Call(
+                        func=ast.Attribute(value=ast.Name(self.numpy),
+                                           attr=cast("str", e.dtype.name)),
+                        args=[_constant(e.item())],
+                        keywords=[])
                 else:
                     return _constant(e)
 
